@@ -231,6 +231,10 @@ static void observe(const char* who, fixed_vector<Elem<C>>& v, Model& m, const s
     {
         viol("C06", "size-exceeds-capacity", after + ": size " + std::to_string(n) + " capacity " +
                                                  std::to_string(v.capacity()));
+        // the same state seen by the bounded-sequence oracle: the reference list never holds more than capacity
+        if (n != m.ids.size())
+            viol("C07", "size-differs-from-reference", after + ": size " + std::to_string(n) + " reference " +
+                                                           std::to_string(m.ids.size()));
         return;
     }
     if (v.capacity() != m.cap)
